@@ -95,6 +95,9 @@ func history(c *harness.Ctx, id string, r *rand.Rand, forced bool) {
 
 	validDoc := func(k int, unresolvable bool) string {
 		d := &refcfg.Doc2{Opts: refcfg.Opts{FR: &k}, Relays: map[string]*refcfg.Relay{env.RelayAddr(0): {}, env.RelayAddr(1): {}}}
+		if k%3 == 0 {
+			d.Relays["http://relay one.example.com/"] = &refcfg.Relay{} // well-formed document, relay address no client can be made for
+		}
 		if unresolvable {
 			// validator 0 has its own entry; everybody else reaches an entry that cannot be applied
 			d.Proposers = []*refcfg.Proposer{{Proposer: fmt.Sprintf("%#x", accts[0].Pub48()), KeyNo: 0}, {Proposer: fmt.Sprintf("%#x", phase0.BLSPubKey{}), KeyNo: 1}}
@@ -119,11 +122,16 @@ func history(c *harness.Ctx, id string, r *rand.Rand, forced bool) {
 		for k := 0; k < nRefresh && stuck.Load() == nil; k++ {
 			var o relaycommon.Outcome
 			in := regIn{Op: "refresh", ID: -1}
-			kind := []string{"valid", "valid", "valid", "valid", "error", "not-found", "malformed", "empty", "nil", "unresolvable", "json-null", "json-array", "json-string", "json-empty-object", "json-version-only"}[rr.Intn(15)]
+			kind := []string{"valid", "valid", "valid", "valid", "legacy-null-entry", "error", "not-found", "malformed", "empty", "nil", "unresolvable", "json-null", "json-array", "json-string", "json-empty-object", "json-version-only"}[rr.Intn(16)]
 			if forced {
 				kind = []string{"unresolvable", "valid", "error", "valid"}[k]
 			}
 			switch kind {
+			case "legacy-null-entry":
+				// an unversioned (legacy) document: a default entry, and null in place of validator 1's entry
+				in.ID = nextID
+				o = relaycommon.Outcome{Kind: "valid", Doc: fmt.Sprintf(`{"default_config":{"fee_recipient":"%s","builder":{"enabled":true,"relays":[%q]}},"proposer_config":{"%#x":null}}`, refcfg.FRHex(nextID), env.RelayAddr(0), accts[1].Pub48())}
+				nextID++
 			case "valid", "unresolvable":
 				in.ID = nextID
 				o = relaycommon.Outcome{Kind: "valid", Doc: validDoc(nextID, kind == "unresolvable")}
@@ -164,7 +172,7 @@ func history(c *harness.Ctx, id string, r *rand.Rand, forced bool) {
 					return
 				default:
 				}
-				switch x := (g + rr.Intn(3)) % 4; x {
+				switch x := (g + rr.Intn(4)) % 5; x {
 				case 0, 1: // proposer settings of validator 0 (always resolvable)
 					call := int64(time.Since(base))
 					var got int
@@ -191,6 +199,17 @@ func history(c *harness.Ctx, id string, r *rand.Rand, forced bool) {
 					}
 					mu.Lock()
 					classes["auction"] = true
+					mu.Unlock()
+				case 3: // a beacon node asking for a bid over REST (held no auction for: an on-demand one)
+					v := rr.Intn(3)
+					if !timed(func() {
+						_, _ = env.Svc.BuilderBid(ctx, phase0.Slot(3300+rr.Intn(2000)), phase0.Hash32{byte(g), 1}, accts[v].Pub48())
+					}) {
+						fail("on-demand bid request did not return")
+						return
+					}
+					mu.Lock()
+					classes["on-demand-bid"] = true
 					mu.Unlock()
 				default: // registration round
 					if !timed(func() { env.Register() }) {
